@@ -16,7 +16,7 @@ from sim.kernel import Choices, sha
 
 ROOT = os.path.dirname(os.path.dirname(os.path.dirname(os.path.abspath(__file__))))
 WORKER = os.path.join(ROOT, "sim", "capworker.py")
-TIMEOUT = 240
+TIMEOUT = 600
 
 
 def repo_dir():
@@ -81,6 +81,15 @@ def points(tier: str) -> List[dict]:
                 if h <= 6:
                     pts.append({"kind": "wide", "n": n, "w": 3, "height": h, "dom_h": 4, "cons": 0, "limit": 3 ** n, "needs": 2 * n + 1})
                     pts.append({"kind": "chain", "n": n + 1, "w": 4, "height": h, "dom_h": 2, "cons": 0, "limit": 1000, "needs": None})
+    # optimisation restarts and a generator resumed after each solution, at and around the exact-fit depth
+    for h in (3, 4, 5, 6, 128):
+        for delta in (-1, 0, 1):
+            n = (h - 1) + delta
+            if n >= 2:
+                pts.append({"kind": "bools", "n": n, "height": h, "dom_h": 0, "cons": 0, "op": "max", "objective": n - 1, "needs": n + 1})
+                pts.append({"kind": "bools", "n": n, "height": h, "dom_h": 1, "cons": 1, "op": "min", "objective": 0, "needs": n + 1})
+                if h <= 6:
+                    pts.append({"kind": "chain", "n": n, "w": 3, "height": h, "dom_h": 0, "cons": 0, "limit": 10 ** 6, "needs": None})
     # the same exhaustion inside a worker of the multiprocessing solver: the caller must see an error, not a partial answer
     for h in ((2, 4, 6, 8) if not th else (2, 3, 4, 5, 6, 7, 8)):
         for n in ((5,) if not th else (3, 5)):
